@@ -82,6 +82,7 @@
 //!
 //! [`there`]: https://goessner.net/articles/JsonPath/
 #![allow(warnings)]
+#![cfg_attr(kani, feature(allocator_api))]
 
 pub mod query;
 
@@ -116,3 +117,7 @@ pub trait JsonPath: Queryable {
 }
 
 impl JsonPath for Value {}
+
+#[cfg(kani)]
+#[path = "/verif/kani/common.rs"]
+pub(crate) mod verif_common;
